@@ -5,6 +5,7 @@ package lang
 
 import (
 	"github.com/lmorg/murex/lang/state"
+	"github.com/lmorg/murex/utils/verifhook"
 )
 
 //////////////////
@@ -44,6 +45,7 @@ func runModeNormal(procs *[]Process) (exitNum int) {
 			}
 		}
 
+		verifhook.Gate(procs, "rm.spawn")
 		go executeProcess(&(*procs)[i])
 	}
 
@@ -60,6 +62,7 @@ func runModeTry(procs *[]Process, tryErr bool) (exitNum int) {
 	}
 
 	for i := 0; i < len(*procs); i++ {
+		verifhook.Gate(procs, "rm.spawn")
 		go executeProcess(&(*procs)[i])
 		next := i + 1
 
@@ -111,6 +114,7 @@ func runModeTryPipe(procs *[]Process, tryPipeErr bool) (exitNum int) {
 	}
 
 	for i := 0; i < len(*procs); i++ {
+		verifhook.Gate(procs, "rm.spawn")
 		go executeProcess(&(*procs)[i])
 		waitProcess(&(*procs)[i])
 
